@@ -16,14 +16,14 @@ class C09(Prop):
     explanation = ('Deductive tier (pv/ded/C09.py): contracts pv/contracts/totals.py on the total-estimation copies (known total passed through, formula of the '
                    'combination) discharged by z3. Bounded tier (labelled bounded): (1) estimate(ms, total=T) with the three FactoredInference solvers, LocalInference (convex oracle) and '
                    'PublicInference for several T, with measurements that imply a very different count: model.total == T exactly (public: weights sum to T), and '
-                   'every model answer sums to model.total; (2) total omitted: for every size n in 1..64 and query kind in {identity, scaled, diagonal, prefix, '
+                   'every model answer sums to model.total; (1b) one estimator (warm_start on and off, cliques fixed or growing) called five times with different supplied / omitted totals: each call\'s model carries that call\'s total; (2) total omitted: for every size n in 1..64 and query kind in {identity, scaled, diagonal, prefix, '
                    'random full-rank square, tall, sparse full-rank, LinearOperator, None} noise-free answers of a dataset with N >= 1 records give total == N; '
                    'rank-deficient queries whose row space misses the ones vector are ignored (alone: total == 1); (3) several noisy measurements with unequal '
                    'noise give max(1, inverse-variance weighted combination) with the minimum-norm solution computed by numpy pinv/lstsq. '
                    'MixtureInference (fourth copy) needs jax, which is absent from the sandbox: not exercised.')
     rule = ('kinds x sizes enumerated: n in 1..64 (single attribute; n with a factorisation a*b, a,b>=2 also as a two-attribute projection in either order) x 9 query kinds x '
             '3 copies, spelling (dense/sparse/operator/None) and dataset drawn from VERIF_SEED; plus seeded weighted cases (2-4 measurements, noise in [0.2,20], optional '
-            'deficient member, optional estimate below 1) and known-total cases (5 engines x 6 totals). Random square / tall / sparse matrices are kept only when '
+            'deficient member, optional estimate below 1) and known-total cases (5 engines x 6 totals; 16 repeated-call sequences of 5 calls). Random square / tall / sparse matrices are kept only when '
             'cond(Q) <= 1e4; a membership decision is only asserted when the dense residual of Q^T v = 1 is < 1e-9 or > 1e-3. '
             'Non-trivial = total omitted and at least one query with more than one cell, or a known total different from the implied count; distinct by case hash')
     trusted_base = ['numpy.linalg.pinv / lstsq / cond (dense oracle for the minimum-norm solution and the row-space test)',
@@ -43,6 +43,11 @@ class C09(Prop):
         for eng in ['MD', 'RDA', 'IG', 'local', 'public']:
             for T in [0.5, 1.0, 7, 1000.0, 12345.678, 3.0e6]:
                 yield dict(kind='known', engine=eng, total=T, seed=int(rng.randint(1 << 30)))
+        # (1b) one estimator called repeatedly (with and without warm start): every call honours ITS OWN total
+        for eng in ['MD', 'RDA', 'IG', 'local']:
+            for warm in (True, False):
+                for grow in (False, True):
+                    yield dict(kind='sequence', engine=eng, warm=warm, grow=grow, seed=int(rng.randint(1 << 30)))
         # (2) noise-free sweep, diverse first: sizes interleaved
         sizes = list(range(1, 65))
         order = [sizes[i] for i in np.argsort([(n * 37) % 64 for n in sizes])]
@@ -75,7 +80,7 @@ class C09(Prop):
                        N=int(rng.choice([1, 3, 40, 5000])), below_one=bool(i % 5 == 0))
 
     def nontrivial(self, case):
-        if case['kind'] == 'known':
+        if case['kind'] in ('known', 'sequence'):
             return True
         return case['n'] > 1
 
@@ -133,6 +138,8 @@ class C09(Prop):
         np.random.seed(case['seed'] % (1 << 31))
         if case['kind'] == 'known':
             return self._run_known(case, rng)
+        if case['kind'] == 'sequence':
+            return self._run_sequence(case, rng)
 
         if case['kind'] == 'noisefree':
             n, shape = case['n'], case['shape']
@@ -202,6 +209,45 @@ class C09(Prop):
                 s = float(np.asarray(model.project(q).datavector()).sum())
                 res.append(('answers-sum-to-model-total', abs(s - tot) <= 1e-8 * max(1.0, abs(tot)), dict(proj=list(q), answer_sum=s, total=tot)))
         return res
+
+    def _run_sequence(self, case, rng):
+        """estimate() called five times on ONE estimator: totals N1 (omitted), N2 (omitted), T (supplied), noisy (omitted), 7 (supplied);
+        the measured cliques stay the same (or grow by one when case['grow']).  Each call's model carries that call's total."""
+        import numpy as np
+        from mbi import Domain, FactoredInference, LocalInference
+        names, shape = ['age', 'bx', 'c'], [int(rng.randint(2, 4)) for _ in range(3)]
+        dom = Domain(names, shape)
+        sz = dict(zip(names, shape))
+        projs = [('age',), ('bx',), ('age', 'bx')]
+        eng = case['engine']
+        if eng == 'local':
+            est = LocalInference(dom, marginal_oracle='convex', iters=2, warm_start=case['warm'])
+        else:
+            est = FactoredInference(dom, iters=2, warm_start=case['warm'])
+        plan = [(100, None, 0.0), (250, None, 0.0), (60, 400.0, 0.0), (100, None, 2.0), (30, 7.0, 0.0)]
+        out = []
+        for step, (N, T, noise) in enumerate(plan):
+            ps = list(projs) + ([('bx', 'c')] if case['grow'] and step >= 2 else [])
+            ms, Qs, ys, ss = [], [], [], []
+            for p in ps:
+                n = IC.prod(sz[a] for a in p)
+                x = rng.multinomial(N, rng.dirichlet(np.ones(n))).astype(float)
+                s = float(rng.choice([0.5, 1.0, 4.0]))
+                y = x + noise * s * rng.randn(n)
+                ms.append((np.eye(n), y, s, p)); Qs.append(np.eye(n)); ys.append(y); ss.append(s)
+            if eng == 'local':
+                model = est.estimate(ms, total=T)
+            else:
+                model = est.estimate(ms, total=T, engine=eng)
+            exp = T if T is not None else self._oracle_total(Qs, ys, ss)[0]
+            det = dict(step=step, model_total=float(model.total), expected=exp, supplied=T, engine=eng, warm_start=case['warm'], grown=bool(case['grow'] and step >= 2))
+            if T is not None:
+                out.append(('known-total-used-exactly[repeated-call]', model.total == T, det))
+            elif exp is not None:
+                out.append(('inverse-variance-combination-of-expressive-queries[repeated-call]', abs(float(model.total) - exp) <= 1e-6 * max(1.0, abs(exp)), det))
+            s_ans = float(np.asarray(model.project(('age',)).datavector()).sum())
+            out.append(('answers-sum-to-model-total[repeated-call]', abs(s_ans - float(model.total)) <= 1e-6 * max(1.0, abs(float(model.total))), dict(det, answer_sum=s_ans)))
+        return out
 
     def _run_known(self, case, rng):
         import numpy as np
